@@ -138,18 +138,24 @@ impl UnscaledStyleMetricsSet {
             Self::Precomputed(metrics) => metrics.get(index).cloned(),
             #[cfg(feature = "std")]
             Self::Lazy(lazy) => {
+                #[cfg(fontations_verif)]
+                raw::types::verif_hooks::sched_point("autohint::metrics::before_read");
                 let read = lazy.read().unwrap();
                 let entry = read.get(index)?;
                 if let Some(metrics) = &entry {
                     return Some(metrics.clone());
                 }
                 core::mem::drop(read);
+                #[cfg(fontations_verif)]
+                raw::types::verif_hooks::sched_point("autohint::metrics::after_read");
                 // The std RwLock doesn't support upgrading and contention is
                 // expected to be low, so let's just race to compute the new
                 // metrics.
                 let shaper = Shaper::new(font, shaper_mode);
                 let style_class = style.style_class()?;
                 let metrics = compute_unscaled_style_metrics(&shaper, coords, style_class);
+                #[cfg(fontations_verif)]
+                raw::types::verif_hooks::sched_point("autohint::metrics::before_write");
                 let mut entry = lazy.write().unwrap();
                 *entry.get_mut(index)? = Some(metrics.clone());
                 Some(metrics)
